@@ -76,6 +76,10 @@ class SimE(Simulator):
         ops: list[list] = []
         if rng.random() < 0.15:
             ops.append(["tick", rng.randint(1, 3), 0.1])
+        if rng.random() < 0.12:
+            # a UOD command button pressed while no run is active (valid, without its argument, failing)
+            ops.append(["user", rng.choice(["Set1", "Valve", "Boom", "LongA", "BadArgs", "Set3"])])
+            ops.append(["tick", rng.randint(1, 3), 0.1])
         n_cmds = rng.randint(2, 8)
         state_guess = "Stopped"
         for i in range(n_cmds):
@@ -104,6 +108,9 @@ class SimE(Simulator):
             elif r < 0.45:
                 ops.append(["inject", rng.choice(["Boom", "Boom", "BadArgs: x", "Set1: abc", "NoSuchCommand: 1"])])
                 ops.append(["tick", rng.choice([1, 3, 5]), dt])
+            elif r < 0.5:
+                ops.append(["user", rng.choice(["Set1", "Valve", "Boom", "LongA", "BadArgs"])])
+                ops.append(["tick", rng.choice([1, 2, 4]), dt])
         ops.append(["tick", rng.randint(2, 10), 0.1])
         ops.append(["report"])
         return {"cfg": {"recovery": False, "runlog_every": 3}, "method": method, "ops": ops}
@@ -415,7 +422,8 @@ class SimE(Simulator):
                 "Simulate off: PV1", "Simulate off: Nope", "Wait: 0.2s", "Wait: 0.2", "Wait: 1 L", "Base: s", "Base: L", "Base: CV",
                 "Base: furlong", "Run counter: 2", "Run counter: x", "Call macro: Nope", "NoSuchCommand: 1", "Pause: 0.2s",
                 "Pause: 1", "Hold: 0.2 s", "Info: hello", "Notify: hi", "0.01 Mark: thr", "Increment run counter"]
-        for _ in range(rng.randint(1, 4)):
+        clean = rng.random() < 0.45      # no near-miss lines: the whole method is meant to pass the analysis
+        for _ in range(0 if clean else rng.randint(1, 4)):
             k = rng.randint(0, len(method))
             txt = rng.choice(near)
             if txt.startswith("Watch"):
@@ -425,7 +433,7 @@ class SimE(Simulator):
         # UOD variant: extra tags / regex-number commands with drawn units, and lines that use them with units of the same
         # family, of another family, or none (the analyzer and the interpreter must agree on every pair)
         cfg: dict = {"runlog_every": 50, "wellformed": False}
-        if rng.random() < 0.65:
+        if clean or rng.random() < 0.65:
             fams = list(UNIT_FAMILIES.values())
             xt, xc = [], []
             special = [UNIT_FAMILIES["percentage"], UNIT_FAMILIES["temperature"], UNIT_FAMILIES["cv"], UNIT_FAMILIES["absorbance"]]
